@@ -57,7 +57,7 @@ def unreported_hang(hist):
 
 def _op_has_faults(desc, rec):
     f = rec.op.get("faults") or {}
-    if f.get("calls") or f.get("stores") or f.get("cut_at") or f.get("interrupt_at") or f.get("interrupt_at_op") \
+    if f.get("calls") or f.get("cfn") or f.get("stores") or f.get("cut_at") or f.get("interrupt_at") or f.get("interrupt_at_op") \
             or f.get("thread_start_fail"):
         return True
     cfg = rec.op.get("cfg", {})
